@@ -1,4 +1,6 @@
 import Blue.Proofs.SetsumGrp
+import Blue.Model.VerifyOne
+import Blue.Driver.C08
 import Blue.Driver.Util
 /-! Driver verbs for the ledger model (instance `ledger`, property C04): the verifier's pass over
     a manifest fragment, computed in the canonical-setsum group the theorems are about.
@@ -8,7 +10,10 @@ import Blue.Driver.Util
 namespace Blue.Driver.C04
 open Blue.Driver Blue.Setsum Blue.Books
 
-def cstate (h : String) : Option CState := (parseHex h).bind ofDigest
+/-- `Setsum::from_hexdigest` (C14's `fromHexdigest`: 64 characters, each pair read by
+    `u8::from_str_radix(_, 16)`, which takes `+x` and upper-case digits too) -/
+def cstate (h : String) : Option CState :=
+  if h.length = 64 then (parsePairs h.toList).bind ofDigest else none
 
 def cstates (s : String) : Option (List CState) :=
   if s = "-" then some [] else allSome ((s.splitOn "+").map cstate)
@@ -48,5 +53,135 @@ def handle : List String → String
     | some cs => hexC (total setsumGrp id cs)
     | none => "bad-op"
   | _ => "bad-op"
+
+/-! ## `vone`: `Blue.Verifier.pass` with the real checks (`Blue.VerifyOne.contentChecker`)
+
+    `vone pass gc=<n> tail=<0|1> <directory> files=<file>{|<file>}`
+    * `<directory>` as for `vfy pass` (Blue.Driver.C08), digests in full (64 hex digits), `vO` a digest;
+    * `gc=<n>`: the store's policy `versions = n`; `tail=1`: the code under test compares the inputs
+      left after the last output with the collector (fixes/c04-verify-gc-tail.diff);
+    * `<file>` ::= `<digest>:<entry>{,<entry>}`, `<entry>` ::= `<key hex>@<ts>=<value hex>#<item digest>`
+      or `<key hex>@<ts>!#<item digest>` (a tombstone): what `get_cursor(digest)` shows, each entry
+      with the setsum the real `sst::Setsum` gives it alone (the model's `h`).
+    Answer: `st=<ok|backoff:x|corrupt:<check>|panic> trash-=… frags-=… vM=… vO=<digest> vstrs=…`. -/
+namespace Vone
+open Blue.Mani Blue.Verifier Blue.VerifyOne Blue.Compact Blue.Driver.C08 Blue.Driver.C08.Vfy
+
+def ops : Ops CState := ⟨setsumGrp.add, setsumGrp.neg, setsumGrp.zero⟩
+
+/-- `Setsum::from_hexdigest` on a manifest string -/
+def parseName (n : Name) : Option CState :=
+  if n.length = 64 then (parsePairs (n.map Char.ofNat)).bind ofDigest else none
+
+def parseEntryTok (tok : String) : Option (Entry × CState) :=
+  match tok.splitOn "#" with
+  | [body, dg] =>
+    match cstate dg, body.splitOn "@" with
+    | some c, [k, rest] =>
+      match parseHex k with
+      | none => none
+      | some kb =>
+        if rest.endsWith "!" then
+          ((rest.dropEnd 1).toString.toNat?).map fun t => (⟨kb, t, none⟩, c)
+        else
+          match rest.splitOn "=" with
+          | [ts, v] =>
+            match ts.toNat?, parseHex v with
+            | some t, some vb => some (⟨kb, t, some vb⟩, c)
+            | _, _ => none
+          | _ => none
+    | _, _ => none
+  | _ => none
+
+def parseFile (tok : String) : Option (CState × List (Entry × CState)) :=
+  match tok.splitOn ":" with
+  | [dg, es] =>
+    match cstate dg, allSome ((es.splitOn ",").map parseEntryTok) with
+    | some c, some l => some (c, l)
+    | _, _ => none
+  | _ => none
+
+def parseFiles (s : String) : Option (List (CState × List (Entry × CState))) :=
+  if s = "-" then some [] else allSome ((s.splitOn "|").map parseFile)
+
+def mkEnv (gcn : Nat) (tail : Bool) (files : List (CState × List (Entry × CState))) : Env CState :=
+  let table := files.flatMap (·.2)
+  { ops := ops
+    parse := parseName
+    h := fun e => ((table.find? (fun p => p.1 == e)).map (·.2)).getD setsumGrp.zero
+    fs := fun s => (files.find? (fun p => p.1 == s)).map (fun p => p.2.map (·.1))
+    policy := .versions gcn
+    tailChecked := tail }
+
+def parseDirC (toks : List String) : Option (Dir CState) :=
+  match field "sst" toks, field "trash" toks, field "vM" toks, field "vO" toks, field "vstrs" toks,
+        field "frags" toks, field "live" toks with
+  | some sst, some trash, some vm, some vo, some vstrs, some frags, some live =>
+    match parseFrags frags, parseEdits live, (if vm = "-" then some none else vm.toNat?.map some), cstate vo with
+    | some fr, some lv, some m, some o =>
+      some { sst := nameList sst, trash := nameList trash, frags := fr, live := lv,
+             vstrs := (nameList vstrs).foldl (fun acc x => insertStr x acc) [], vM := m, vO := o, done := [] }
+    | _, _, _, _ => none
+  | _, _, _, _, _, _, _ => none
+
+def renderFail : Fail → String
+  | .missing k => "missing-" ++ String.singleton (Char.ofNat k)
+  | .badDigest => "bad-digest"
+  | .chain => "chain"
+  | .balance => "balance"
+  | .notFound => "notfound"
+  | .contents => "contents"
+  | .badL => "bad-L"
+  | .discard => "discard"
+  | .gcLogic => "gc-logic"
+  | .gcDataLoss => "gc-data-loss"
+  | .gcConstruction => "gc-construction"
+  | .gcDiscard => "gc-discard"
+  | .output => "output"
+
+/-- for a pass that ended in `corrupt`: which check of which entry (for a readable disagreement; the
+    status itself is `Blue.Verifier.pass`'s) -/
+def why (env : Env CState) (d d' : Dir CState) : String :=
+  let pending := (entries d).filter fun f => match d'.vM with
+    | some m => decide (m < f.1)
+    | none => true
+  match pending with
+  | [] => (match d'.vM with
+    | some m => if (entries d).any (fun f => decide (f.1 < m)) then "out-of-order" else "unknown"
+    | none => "unknown")
+  | (n, es) :: _ =>
+    match completeActs d' n with
+    | none => "out-of-order"
+    | some _ =>
+      match verifyFragment env d'.vO es with
+      | .error f => renderFail f
+      | .ok _ =>
+        if !readable d' es then "notfound"
+        else if (plan false (laterRm d' n) es).isNone then "bad-L" else "unknown"
+
+def renderStatusC (env : Env CState) (d d' : Dir CState) : Status → String
+  | .ok => "ok"
+  | .backoff x => "backoff:" ++ str x
+  | .corrupt => "corrupt:" ++ why env d d'
+  | .panic => "panic"
+
+def renderVC (d : Dir CState) : String :=
+  s!"vM={match d.vM with | some m => toString m | none => "-"} vO={hexC d.vO} vstrs={renderNames d.vstrs}"
+
+def handle : List String → String
+  | "pass" :: toks =>
+    match parseDirC toks, (field "gc" toks).bind (·.toNat?), field "tail" toks, (field "files" toks).bind parseFiles with
+    | some d, some gcn, some tl, some files =>
+      if tl ≠ "0" ∧ tl ≠ "1" then "bad-op" else
+      let env := mkEnv gcn (tl = "1") files
+      let r := pass (contentChecker env) d
+      let d' := run d r.1
+      let goneT := d.trash.filter (fun x => !d'.trash.contains x)
+      let goneF := (d.frags.map (·.1)).filter (fun n => !(d'.frags.map (·.1)).contains n)
+      s!"st={renderStatusC env d d' r.2} trash-={renderNames goneT} frags-={renderNums goneF} {renderVC d'}"
+    | _, _, _, _ => "bad-op"
+  | _ => "bad-op"
+
+end Vone
 
 end Blue.Driver.C04
